@@ -192,6 +192,20 @@ def hand_flow():
         Decl(['计'], Num('0')),
         While(Bin('lt', Var('计'), Num('3')), [inc('计'), If(Bin('eq', Var('计'), Num('2')), [Throw('异常', [Str('二')])]), _show(Var('计'))]),
         _show(Str('不达'))]))
+    # the traversed expression is evaluated before the loop variables exist: 以甲遍历甲 walks the OUTER 甲
+    out.append(Program([], [
+        Decl(['甲'], Arr([Num('1'), Num('2'), Num('3')])),
+        Iter(['甲'], Var('甲'), [_show(Var('甲'))]), _show(Var('甲')),
+        Func('对', ['键', '值'], [Iter(['键', '值'], Dict([(Var('子'), Var('键')), (Var('丑'), Var('值'))]), [_show(Var('键'), Var('值'))]),
+                                 Ret(Arr([Var('键'), Var('值')]))]),
+        _show(Call('对', [Num('1'), Num('2')]))]))
+    # a handler that executes 结束循环 / 继续循环 outside any loop of its method does not steer the caller's loop
+    for sig in (Break(), Continue()):
+        out.append(Program([], [
+            Func('险', [], [Throw('异常', [Str('x')])], [('异常', [_show(Str('拦')), sig])]),
+            Decl(['计'], Num('0')),
+            While(Bin('lt', Var('计'), Num('3')), [inc('计'), _show(Var('计')), ExprS(Call('险', [])), _show(Str('后'))]),
+            _show(Str('不达'))]))
     return [(p, {}) for p in out]
 
 
@@ -495,7 +509,19 @@ class G:
                 for nm in names:
                     body.append(ExprS(Call('显示', [Var(nm)])))
                 body += self.stmts(rng.randint(1, 3), env2, depth - 1, True, in_func)
-                out.append(Iter(names, coll, body))
+                if names and rng.random() < 0.25:
+                    # the traversed expression mentions a name spelled like one of the loop's own variables: it is evaluated
+                    # BEFORE they exist (the outer variable is meant), and the loop variable shadows it only inside the loop
+                    outer = rng.choice(names)
+                    out.append(Decl([outer], coll if rng.random() < 0.6 else Num(rng.choice(SMALL_INTS))))
+                    if isinstance(coll, Arr) and rng.random() < 0.5:
+                        coll2 = Var(outer) if out[-1].e is coll else Arr([Var(outer), Var(outer)])
+                    else:
+                        coll2 = Var(outer) if out[-1].e is coll else Dict([(Var('子'), Var(outer)), (Var('丑'), Var(outer))])
+                    out.append(Iter(names, coll2, body))
+                    out.append(ExprS(Call('显示', [Var(outer)])))
+                else:
+                    out.append(Iter(names, coll, body))
             elif r < 0.76 and in_loop:
                 out.append(rng.choice([Break(), Continue()]))
             elif r < 0.84:
@@ -524,7 +550,13 @@ class G:
         fnames = []
         for i in range(nf):
             fn = '法%d' % self.fresh()
-            body.append(Func(fn, [], self.stmts(rng.randint(2, 5), {}, depth, False, True)))
+            if rng.random() < 0.25:
+                # a method whose own handler executes a loop statement outside any loop of the method: that is not a signal for the
+                # CALLER's loop (it becomes an exception at the call site)
+                body.append(Func(fn, [], [ExprS(Call('显示', [Num(str(self.fresh()))])), Throw('异常', [Str('险')]), Ret(Num('1'))],
+                                 [('异常', [ExprS(Call('显示', [Str('拦')])), rng.choice([Break(), Continue()])])]))
+            else:
+                body.append(Func(fn, [], self.stmts(rng.randint(2, 5), {}, depth, False, True)))
             fnames.append(fn)
             self.callables = list(fnames)
         main = self.stmts(rng.randint(2, 6), {}, depth, False, False)
